@@ -1,4 +1,5 @@
 import AranyaV.Props.C22
+import AranyaV.Proofs.CompileLayout
 /-!
 # C24 — Policies the compiler accepts do not go wrong
 
@@ -19,6 +20,9 @@ Proved here:
 * `resolve_no_unresolved_partial` — after a successful `compileProgram` no `Branch/Jump/Call/Recall`
   carries an `Unresolved` target (the "succeeds" and "< |progmem|" parts are not proved: the tie
   compares the model's listing with the real compiler's on every accepted sample program).
+* `resolve_labels_distinct` — the duplicate-label failure of `define_label` cannot occur (all
+  constructs).  Still not proved: every referenced label is defined (so `resolve_targets` cannot
+  fail) and every target is `< |progmem|`.
 * `sp_discipline` — for `return e` in any activation: the VM reaches `RestoreSP`
   with `v :: junk ++ base` on the stack and the saved pointer `|base|` on the call stack, so the
   "callable has consumed too many stack values" error cannot occur, and the instruction leaves
@@ -95,6 +99,15 @@ theorem labels_distinct {sd : Defs} {funs : List FunDef} {cp : Compiled}
     | none => rw [hr] at h; cases h
     | some prog => rw [hr] at h; cases h; simpa [labelsDistinct] using hnd
   · cases h
+
+/-- **resolve_total, label part**: the compiler's `define_label` duplicate check ("Label … defined
+twice!") never fires on model-compiled code: with distinct function names (enforced by lowering)
+every label of the program — one per function, one per allocated anonymous counter value — is
+distinct.  Proved by the mutual induction principle of the compile functions over every
+construct (`good_all`). -/
+theorem resolve_labels_distinct (sd : Defs) (funs : List FunDef) (hn : (funs.map (·.name)).Nodup) :
+    labelsDistinct (compileUnresolved sd funs).defs = true :=
+  labels_never_collide sd funs hn
 
 /-- **sp_discipline**: `return e` in any activation.  If `e` evaluates to `v`, the VM stands at the
 `RestoreSP` with `v` on top of the temporaries `junk` and the entry stack `base`, the saved stack
